@@ -94,18 +94,64 @@ def KeepsHandler (f : SFun) : Prop := ∀ p q o, f p = some (q, o) → q.handler
 /-- after `f` the timer is disarmed or untouched -/
 def TimerNoneOrSame (f : SFun) : Prop := ∀ p q o, f p = some (q, o) → q.timer = none ∨ q.timer = p.timer
 
-/-- the wrapper restores the handler around ANY wrapped function when it arms (t ≠ 0) -/
-theorem wrapS_keeps_armed (t : Nat) (name : String) (f : SFun) (ht : t ≠ 0) : KeepsHandler (wrapS t name f) := by
-  intro p q o h
+/-- what the arming wrapper hands back, given what the wrapped function did: (A) nothing to put back /
+    code does not put back, (B) previous alarm pending again, (C1/C2) previous alarm already due: it goes
+    off with the restored handler (foreign: returns; scrapli's: raises) -/
+theorem wrapS_armed_cases (cfg : Cfg) (t : Nat) (name : String) (f : SFun) (p q : Proc) (o : Out) (ht : t ≠ 0)
+    (h : wrapS cfg t name f p = some (q, o)) :
+    ∃ p2 o2, f { p with handler := .scrapli (message name), timer := some (p.now + t) } = some (p2, o2) ∧
+      ((q = { p2 with timer := none, handler := p.handler } ∧ o = o2 ∧ (cfg.restoreTimer = false ∨ p.timer = none)) ∨
+       (∃ D, p.timer = some D ∧ cfg.restoreTimer = true ∧ p2.now < D ∧
+          q = { p2 with timer := some D, handler := p.handler } ∧ o = o2) ∨
+       (∃ D n, p.timer = some D ∧ cfg.restoreTimer = true ∧ D ≤ p2.now ∧ p.handler = .user n ∧
+          q = { p2 with now := max D p2.now, timer := none, handler := p.handler } ∧ o = o2) ∨
+       (∃ D m, p.timer = some D ∧ cfg.restoreTimer = true ∧ D ≤ p2.now ∧ p.handler = .scrapli m ∧
+          q = { p2 with now := max D p2.now, timer := none, handler := p.handler,
+                        closed := if cfg.noTerminate then p2.closed else true } ∧ o = .timeout m)) := by
   simp only [wrapS, ht, ↓reduceIte] at h
   split at h
   · simp at h
-  · simp at h; rw [← h.1]
+  · rename_i p2 o2 heq
+    refine ⟨p2, o2, heq, ?_⟩
+    cases hr : cfg.restoreTimer with
+    | false =>
+      simp only [hr, Bool.false_eq_true, ↓reduceIte] at h
+      simp at h
+      exact Or.inl ⟨h.1.symm, h.2.symm, Or.inl rfl⟩
+    | true =>
+      simp only [hr, ↓reduceIte] at h
+      cases hp : p.timer with
+      | none =>
+        simp only [hp] at h
+        simp at h
+        exact Or.inl ⟨h.1.symm, h.2.symm, Or.inr rfl⟩
+      | some D =>
+        simp only [hp] at h
+        by_cases hD : D ≤ p2.now
+        · simp only [hD, ↓reduceIte] at h
+          cases hh : p.handler with
+          | user n =>
+            rw [fireS_user cfg _ D n (by simpa using hh)] at h
+            simp at h
+            exact Or.inr (Or.inr (Or.inl ⟨D, n, rfl, rfl, hD, rfl, by rw [← h.1, hh], h.2.symm⟩))
+          | scrapli m =>
+            rw [fireS_scrapli cfg _ D m (by simpa using hh)] at h
+            simp at h
+            exact Or.inr (Or.inr (Or.inr ⟨D, m, rfl, rfl, hD, rfl, by rw [← h.1, hh]; cases cfg.noTerminate <;> rfl, h.2.symm⟩))
+        · simp only [hD, ↓reduceIte] at h
+          simp at h
+          exact Or.inr (Or.inl ⟨D, rfl, rfl, by omega, h.1.symm, h.2.symm⟩)
 
-theorem wrapS_keeps (t : Nat) (name : String) (f : SFun) (hf : KeepsHandler f) : KeepsHandler (wrapS t name f) := by
+/-- the wrapper restores the handler around ANY wrapped function when it arms (t ≠ 0) -/
+theorem wrapS_keeps_armed (cfg : Cfg) (t : Nat) (name : String) (f : SFun) (ht : t ≠ 0) : KeepsHandler (wrapS cfg t name f) := by
+  intro p q o h
+  obtain ⟨p2, o2, _, hc⟩ := wrapS_armed_cases cfg t name f p q o ht h
+  rcases hc with ⟨rfl, _⟩ | ⟨D, _, _, _, rfl, _⟩ | ⟨D, n, _, _, _, _, rfl, _⟩ | ⟨D, m, _, _, _, _, rfl, _⟩ <;> rfl
+
+theorem wrapS_keeps (cfg : Cfg) (t : Nat) (name : String) (f : SFun) (hf : KeepsHandler f) : KeepsHandler (wrapS cfg t name f) := by
   by_cases ht : t = 0
   · intro p q o h; simp only [wrapS, ht, ↓reduceIte] at h; exact hf p q o h
-  · exact wrapS_keeps_armed t name f ht
+  · exact wrapS_keeps_armed cfg t name f ht
 
 theorem seqS_keeps (a k : SFun) (ha : KeepsHandler a) (hk : KeepsHandler k) :
     KeepsHandler (fun p => seqS (a p) k) := by
@@ -116,23 +162,26 @@ theorem seqS_keeps (a k : SFun) (ha : KeepsHandler a) (hk : KeepsHandler k) :
     rw [hk _ _ _ h, ha _ _ _ heq]
   · exact ha _ _ _ h
 
-theorem wrapS_timer (t : Nat) (name : String) (f : SFun) (hf : TimerNoneOrSame f) : TimerNoneOrSame (wrapS t name f) := by
+theorem wrapS_timer (cfg : Cfg) (t : Nat) (name : String) (f : SFun) (hf : TimerNoneOrSame f) : TimerNoneOrSame (wrapS cfg t name f) := by
   intro p q o h
   by_cases ht : t = 0
   · simp only [wrapS, ht, ↓reduceIte] at h; exact hf p q o h
-  · simp only [wrapS, ht, ↓reduceIte] at h
-    split at h
-    · simp at h
-    · simp at h; rw [← h.1]; exact Or.inl rfl
+  · obtain ⟨p2, o2, _, hc⟩ := wrapS_armed_cases cfg t name f p q o ht h
+    rcases hc with ⟨rfl, _⟩ | ⟨D, hD, _, _, rfl, _⟩ | ⟨D, n, _, _, _, _, rfl, _⟩ | ⟨D, m, _, _, _, _, rfl, _⟩
+    · exact Or.inl rfl
+    · exact Or.inr hD.symm
+    · exact Or.inl rfl
+    · exact Or.inl rfl
 
-/-- when the wrapper arms, the timer is DISARMED afterwards whatever it was before -/
-theorem wrapS_timer_armed (t : Nat) (name : String) (f : SFun) (ht : t ≠ 0) :
-    ∀ p q o, wrapS t name f p = some (q, o) → q.timer = none := by
+/-- when the wrapper arms and the code does not put the previous timer back, the timer is DISARMED
+    afterwards whatever it was before -/
+theorem wrapS_timer_armed (cfg : Cfg) (hr : cfg.restoreTimer = false) (t : Nat) (name : String) (f : SFun) (ht : t ≠ 0) :
+    ∀ p q o, wrapS cfg t name f p = some (q, o) → q.timer = none := by
   intro p q o h
-  simp only [wrapS, ht, ↓reduceIte] at h
-  split at h
-  · simp at h
-  · simp at h; rw [← h.1]
+  obtain ⟨p2, o2, _, hc⟩ := wrapS_armed_cases cfg t name f p q o ht h
+  rcases hc with ⟨rfl, _⟩ | ⟨D, _, h1, _⟩ | ⟨D, n, _, h1, _⟩ | ⟨D, m, _, h1, _⟩
+  · rfl
+  all_goals (rw [hr] at h1; cases h1)
 
 theorem seqS_timer (a k : SFun) (ha : TimerNoneOrSame a) (hk : TimerNoneOrSame k) :
     TimerNoneOrSame (fun p => seqS (a p) k) := by
@@ -180,7 +229,7 @@ theorem runS_keeps (cfg : Cfg) : ∀ prog : Prog, KeepsHandler (runS cfg prog) :
           exact this.trans hf'
       · have := ih _ _ _ h; exact this
   | call t name body k ihb ihk =>
-    have := seqS_keeps _ _ (wrapS_keeps t name _ ihb) ihk
+    have := seqS_keeps _ _ (wrapS_keeps cfg t name _ ihb) ihk
     intro p q o h
     exact this p q o (by simpa [runS] using h)
   | spawn body k ihb ihk =>
@@ -226,7 +275,7 @@ theorem runS_timer (cfg : Cfg) : ∀ prog : Prog, TimerNoneOrSame (runS cfg prog
         · exact Or.inl h1
         · exact Or.inr (by simpa using h1)
   | call t name body k ihb ihk =>
-    have := seqS_timer _ _ (wrapS_timer t name _ ihb) ihk
+    have := seqS_timer _ _ (wrapS_timer cfg t name _ ihb) ihk
     intro p q o h
     exact this p q o (by simpa [runS] using h)
   | spawn body k ihb ihk =>
@@ -246,18 +295,28 @@ def ClosesOK (cfg : Cfg) (S : List String) (f : SFun) : Prop :=
     (∀ msg, o = .timeout msg → ∃ n ∈ S, msg = message n)
 
 theorem wrapS_closes (cfg : Cfg) (S : List String) (t : Nat) (name : String) (f : SFun)
-    (hn : t ≠ 0 → name ∈ S) (hf : ClosesOK cfg S f) : ClosesOK cfg S (wrapS t name f) := by
+    (hn : t ≠ 0 → name ∈ S) (hf : ClosesOK cfg S f) : ClosesOK cfg S (wrapS cfg t name f) := by
   intro p q o ha h
   by_cases ht : t = 0
   · simp only [wrapS, ht, ↓reduceIte] at h; exact hf p q o ha h
-  · simp only [wrapS, ht, ↓reduceIte] at h
-    split at h
-    · simp at h
-    · rename_i p2 o2 heq
-      simp at h
-      have := hf _ p2 o2 (by intro _; exact ⟨name, hn ht, rfl⟩) heq
-      rw [← h.1, ← h.2]
-      simpa using this
+  · obtain ⟨p2, o2, heq, hc⟩ := wrapS_armed_cases cfg t name f p q o ht h
+    have hb := hf _ p2 o2 (by intro _; exact ⟨name, hn ht, rfl⟩) heq
+    simp only at hb
+    rcases hc with ⟨rfl, rfl, _⟩ | ⟨D, _, _, _, rfl, rfl⟩ | ⟨D, n, _, _, _, _, rfl, rfl⟩ | ⟨D, m, hD, _, _, hh, rfl, rfl⟩
+    · exact hb
+    · exact hb
+    · exact hb
+    · -- the previous alarm was an enclosing scrapli timeout that is due: its handler raises now
+      obtain ⟨n, hnS, hhn⟩ := ha (by simp [hD])
+      rw [hh] at hhn
+      cases hhn
+      refine ⟨?_, ?_, ?_⟩
+      · intro _
+        cases hto : o2.isTimeout
+        · simp [hb.2.1 hto]
+        · cases hnt : cfg.noTerminate <;> simp [hb.1 hto, hnt]
+      · intro hx; simp [Out.isTimeout] at hx
+      · intro msg hm; cases hm; exact ⟨n, hnS, rfl⟩
 
 theorem seqS_closes (cfg : Cfg) (S : List String) (a k : SFun) (ha : ClosesOK cfg S a) (hk : ClosesOK cfg S k)
     (hah : KeepsHandler a) (hat : TimerNoneOrSame a) : ClosesOK cfg S (fun p => seqS (a p) k) := by
@@ -319,7 +378,7 @@ theorem runS_closes (cfg : Cfg) (S : List String) : ∀ prog : Prog, (∀ n ∈ 
     have hSk : ∀ n ∈ k.names, n ∈ S := fun n hn => hS n (by simp [Prog.names, hn])
     have hname : t ≠ 0 → name ∈ S := fun ht => hS name (by simp [Prog.names, ht])
     have := seqS_closes cfg S _ _ (wrapS_closes cfg S t name _ hname (ihb hSb)) (ihk hSk)
-      (wrapS_keeps t name _ (runS_keeps cfg body)) (wrapS_timer t name _ (runS_timer cfg body))
+      (wrapS_keeps cfg t name _ (runS_keeps cfg body)) (wrapS_timer cfg t name _ (runS_timer cfg body))
     intro p q o harm h
     exact this p q o harm (by simpa [runS] using h)
   | spawn body k ihb ihk =>
@@ -868,8 +927,8 @@ theorem unarmed_names : ∀ prog : Prog, prog.unarmed = true → prog.names = []
 /-! ### a decorated call on its own -/
 
 theorem runS_call_ret (cfg : Cfg) (t : Nat) (name : String) (body : Prog) (p : Proc) :
-    runS cfg (.call t name body .ret) p = wrapS t name (runS cfg body) p := by
-  have : runS cfg (.call t name body .ret) p = seqS (wrapS t name (runS cfg body) p) (runS cfg .ret) := rfl
+    runS cfg (.call t name body .ret) p = wrapS cfg t name (runS cfg body) p := by
+  have : runS cfg (.call t name body .ret) p = seqS (wrapS cfg t name (runS cfg body) p) (runS cfg .ret) := rfl
   rw [this]; exact seqS_ret cfg _
 
 theorem runT_call_ret (cfg : Cfg) (t : Nat) (name : String) (body : Prog) (s : Nat) (ext : Option Nat) :
@@ -1053,5 +1112,451 @@ theorem runA_unarmed_tasks (cfg : Cfg) : ∀ (prog : Prog) (s : Nat) (ca : Optio
     · rw [heq]; simp [ihb s ca c hub, ihk _ _ _ huk]
     · rw [heq]; exact ihb s ca c hub
   | spawn body k _ _ => intro s ca c hu; simp [Prog.unarmed] at hu
+
+/-! ### signal mechanism with the previous timer put back (cfg.restoreTimer) -/
+
+def NowMono (f : SFun) : Prop := ∀ p q o, f p = some (q, o) → p.now ≤ q.now
+
+/-- the alarm that was pending before is pending again with its old deadline, or that deadline has passed and
+    it has gone off -/
+def TimerKept (f : SFun) : Prop :=
+  ∀ p q o, f p = some (q, o) → q.timer = p.timer ∨ (∃ D, p.timer = some D ∧ D ≤ q.now ∧ q.timer = none)
+
+theorem wrapS_nowMono (cfg : Cfg) (t : Nat) (name : String) (f : SFun) (hf : NowMono f) : NowMono (wrapS cfg t name f) := by
+  intro p q o h
+  by_cases ht : t = 0
+  · simp only [wrapS, ht, ↓reduceIte] at h; exact hf p q o h
+  · obtain ⟨p2, o2, heq, hc⟩ := wrapS_armed_cases cfg t name f p q o ht h
+    have := hf _ _ _ heq
+    simp only at this
+    rcases hc with ⟨rfl, _⟩ | ⟨D, _, _, _, rfl, _⟩ | ⟨D, n, _, _, _, _, rfl, _⟩ | ⟨D, m, _, _, _, _, rfl, _⟩ <;> simp <;> omega
+
+theorem seqS_nowMono (a k : SFun) (ha : NowMono a) (hk : NowMono k) : NowMono (fun p => seqS (a p) k) := by
+  intro p q o h
+  simp only [seqS] at h
+  split at h
+  · rename_i p' heq
+    have := ha _ _ _ heq
+    have := hk _ _ _ h
+    omega
+  · exact ha _ _ _ h
+
+theorem fireS_now (cfg : Cfg) (p : Proc) (D : Nat) : (fireS cfg p D).1.now = max D p.now := by
+  cases hh : p.handler with
+  | user n => rw [fireS_user cfg p D n hh]
+  | scrapli m => rw [fireS_scrapli cfg p D m hh]
+
+theorem runS_nowMono (cfg : Cfg) : ∀ prog : Prog, NowMono (runS cfg prog) := by
+  intro prog
+  induction prog with
+  | ret => intro p q o h; simp [runS] at h; rw [← h.1]; exact Nat.le_refl _
+  | raise => intro p q o h; simp [runS] at h; rw [← h.1]; exact Nat.le_refl _
+  | hang =>
+    intro p q o h
+    unfold runS at h
+    split at h
+    · simp at h
+    · rename_i D _
+      have hf := fireS_now cfg p D
+      split at h
+      · rename_i p' o' heq
+        simp at h; rw [heq] at hf; rw [← h.1]; simp at hf; omega
+      · simp at h
+  | work d k ih =>
+    intro p q o h
+    unfold runS at h
+    split at h
+    · have := ih _ _ _ h; simp at this; omega
+    · rename_i D _
+      split at h
+      · have hf := fireS_now cfg p D
+        split at h
+        · rename_i p' o' heq
+          simp at h; rw [heq] at hf; rw [← h.1]; simp at hf; omega
+        · have := ih _ _ _ h; simp at this; omega
+      · have := ih _ _ _ h; simp at this; omega
+  | call t name body k ihb ihk =>
+    have := seqS_nowMono _ _ (wrapS_nowMono cfg t name _ ihb) ihk
+    intro p q o h
+    exact this p q o (by simpa [runS] using h)
+  | spawn body k ihb ihk =>
+    have := seqS_nowMono _ _ ihb ihk
+    intro p q o h
+    exact this p q o (by simpa [runS] using h)
+
+/-- an arming wrapper that puts the timer back keeps it around ANY wrapped function -/
+theorem wrapS_timerKept_armed (cfg : Cfg) (hr : cfg.restoreTimer = true) (t : Nat) (name : String) (f : SFun)
+    (ht : t ≠ 0) : TimerKept (wrapS cfg t name f) := by
+  intro p q o h
+  obtain ⟨p2, o2, _, hc⟩ := wrapS_armed_cases cfg t name f p q o ht h
+  rcases hc with ⟨rfl, _, h1 | h1⟩ | ⟨D, hD, _, _, rfl, _⟩ | ⟨D, n, hD, _, hle, _, rfl, _⟩ | ⟨D, m, hD, _, hle, _, rfl, _⟩
+  · rw [hr] at h1; cases h1
+  · exact Or.inl h1.symm
+  · exact Or.inl hD.symm
+  · exact Or.inr ⟨D, hD, by simp; omega, rfl⟩
+  · exact Or.inr ⟨D, hD, by simp; omega, rfl⟩
+
+theorem wrapS_timerKept (cfg : Cfg) (hr : cfg.restoreTimer = true) (t : Nat) (name : String) (f : SFun)
+    (hf : TimerKept f) : TimerKept (wrapS cfg t name f) := by
+  by_cases ht : t = 0
+  · intro p q o h; simp only [wrapS, ht, ↓reduceIte] at h; exact hf p q o h
+  · exact wrapS_timerKept_armed cfg hr t name f ht
+
+theorem seqS_timerKept (a k : SFun) (ha : TimerKept a) (hk : TimerKept k) (hkm : NowMono k) :
+    TimerKept (fun p => seqS (a p) k) := by
+  intro p q o h
+  simp only [seqS] at h
+  split at h
+  · rename_i p' heq
+    have hm := hkm _ _ _ h
+    rcases ha _ _ _ heq with h1 | ⟨D, hD, hle, hn⟩
+    · rcases hk _ _ _ h with h2 | ⟨D, hD, hle, hn⟩
+      · exact Or.inl (h2.trans h1)
+      · exact Or.inr ⟨D, h1 ▸ hD, hle, hn⟩
+    · rcases hk _ _ _ h with h2 | ⟨D', hD', _, _⟩
+      · exact Or.inr ⟨D, hD, by omega, h2.trans hn⟩
+      · rw [hn] at hD'; cases hD'
+  · exact ha _ _ _ h
+
+theorem runS_timerKept (cfg : Cfg) (hr : cfg.restoreTimer = true) : ∀ prog : Prog, TimerKept (runS cfg prog) := by
+  intro prog
+  induction prog with
+  | ret => intro p q o h; simp [runS] at h; rw [← h.1]; exact Or.inl rfl
+  | raise => intro p q o h; simp [runS] at h; rw [← h.1]; exact Or.inl rfl
+  | hang =>
+    intro p q o h
+    unfold runS at h
+    split at h
+    · simp at h
+    · rename_i D hD
+      have hn := fireS_now cfg p D
+      have ht := fireS_timer cfg p D
+      split at h
+      · rename_i p' o' heq
+        simp at h; rw [heq] at hn ht; rw [← h.1]
+        exact Or.inr ⟨D, hD, by simp at hn; omega, ht⟩
+      · simp at h
+  | work d k ih =>
+    intro p q o h
+    unfold runS at h
+    split at h
+    · rename_i _ hpn
+      rcases ih _ _ _ h with h1 | ⟨D, hD, _, _⟩
+      · exact Or.inl h1
+      · have hD' : p.timer = some D := hD
+        rw [hpn] at hD'; cases hD'
+    · rename_i D hD
+      split at h
+      · rename_i hle
+        have hn := fireS_now cfg p D
+        have ht := fireS_timer cfg p D
+        split at h
+        · rename_i p' o' heq
+          simp at h; rw [heq] at hn ht; rw [← h.1]
+          exact Or.inr ⟨D, hD, by simp at hn; omega, ht⟩
+        · rename_i p' heq
+          rw [heq] at ht
+          have ht' : p'.timer = none := ht
+          have hm := runS_nowMono cfg k _ _ _ h
+          simp at hm
+          rcases ih _ _ _ h with h1 | ⟨D', hD', _, _⟩
+          · have h1' : q.timer = p'.timer := h1
+            exact Or.inr ⟨D, hD, by omega, h1'.trans ht'⟩
+          · have hD'' : p'.timer = some D' := hD'
+            rw [ht'] at hD''; cases hD''
+      · rcases ih _ _ _ h with h1 | ⟨D', hD', hle, hn⟩
+        · exact Or.inl h1
+        · exact Or.inr ⟨D', hD', hle, hn⟩
+  | call t name body k ihb ihk =>
+    have := seqS_timerKept _ _ (wrapS_timerKept cfg hr t name _ ihb) ihk (runS_nowMono cfg k)
+    intro p q o h
+    exact this p q o (by simpa [runS] using h)
+  | spawn body k ihb ihk =>
+    have := seqS_timerKept _ _ ihb ihk (runS_nowMono cfg k)
+    intro p q o h
+    exact this p q o (by simpa [runS] using h)
+
+/-! ### what a program does when nothing interferes, and the three mechanisms measured against it -/
+
+/-- `a; k` on (duration, outcome) pairs; duration `none` = blocks for ever -/
+def natSeq (a : Option Nat × Out) (k : Option Nat × Out) : Option Nat × Out :=
+  match a with
+  | (some e, .ret) => (match k with
+      | (some e', o) => (some (e + e'), o)
+      | (none, o) => (none, o))
+  | r => r
+
+/-- (how long, how it ends) for a program whose every timeout is 0 — the Lean twin of `natural()` in
+    tools/props/c07.py, the oracle's yardstick -/
+def Prog.natural : Prog → Option Nat × Out
+  | .ret => (some 0, .ret)
+  | .raise => (some 0, .error)
+  | .hang => (none, .error)
+  | .work d k => natSeq (some d, .ret) k.natural
+  | .call _ _ body k => natSeq body.natural k.natural
+  | .spawn body k => natSeq body.natural k.natural
+
+theorem natSeq_some {a k : Option Nat × Out} {d : Nat} {o : Out} (h : natSeq a k = (some d, o)) :
+    (∃ e e', a = (some e, .ret) ∧ k = (some e', o) ∧ d = e + e') ∨ (a = (some d, o) ∧ o ≠ .ret) := by
+  obtain ⟨ad, ao⟩ := a
+  obtain ⟨kd, ko⟩ := k
+  cases ad with
+  | none => simp [natSeq] at h
+  | some e =>
+    cases ao with
+    | ret =>
+      cases kd with
+      | none => simp [natSeq] at h
+      | some e' => simp [natSeq] at h; exact Or.inl ⟨e, e', rfl, by rw [h.2], h.1.symm⟩
+    | timeout m => simp [natSeq] at h; exact Or.inr ⟨by rw [← h.1, ← h.2], by rw [← h.2]; simp⟩
+    | error => simp [natSeq] at h; exact Or.inr ⟨by rw [← h.1, ← h.2], by rw [← h.2]; simp⟩
+    | cancelled => simp [natSeq] at h; exact Or.inr ⟨by rw [← h.1, ← h.2], by rw [← h.2]; simp⟩
+
+/-- if `a; k` does not finish before `lim`, either `a` does not, or `a` returns at `e` and `k` does not
+    finish before `lim - e` -/
+theorem natSeq_late {a k : Option Nat × Out} {lim : Nat} (h : ∀ d o, natSeq a k = (some d, o) → lim ≤ d) :
+    (∀ d o, a = (some d, o) → lim ≤ d) ∨
+    (∃ e, a = (some e, .ret) ∧ e < lim ∧ ∀ d o, k = (some d, o) → lim ≤ e + d) := by
+  obtain ⟨ad, ao⟩ := a
+  cases ad with
+  | none => exact Or.inl (by intro d o hx; cases hx)
+  | some e =>
+    by_cases hle : lim ≤ e
+    · exact Or.inl (by intro d o hx; cases hx; exact hle)
+    · cases ao with
+      | ret =>
+        refine Or.inr ⟨e, rfl, by omega, ?_⟩
+        intro d o hk
+        exact h (e + d) o (by rw [hk]; rfl)
+      | timeout m => exact absurd (h e _ rfl) hle
+      | error => exact absurd (h e _ rfl) hle
+      | cancelled => exact absurd (h e _ rfl) hle
+
+/-- signal mechanism, the program finishes before the armed deadline: its own result at its own time,
+    nothing touched -/
+theorem runS_natural_own (cfg : Cfg) (m : String) (D : Nat) : ∀ (prog : Prog) (p : Proc) (d : Nat) (o : Out),
+    prog.unarmed = true → p.timer = some D → p.handler = .scrapli m → prog.natural = (some d, o) → p.now + d < D →
+    runS cfg prog p = some ({ p with now := p.now + d }, o) := by
+  intro prog
+  induction prog with
+  | ret => intro p d o _ _ _ hn _; simp [Prog.natural] at hn; simp [runS, ← hn.1, ← hn.2]
+  | raise => intro p d o _ _ _ hn _; simp [Prog.natural] at hn; simp [runS, ← hn.1, ← hn.2]
+  | hang => intro p d o _ _ _ hn _; simp [Prog.natural] at hn
+  | work w k ih =>
+    intro p d o hu ht hh hn hlt
+    simp [Prog.unarmed] at hu
+    rcases natSeq_some hn with ⟨e, e', ha, hk, rfl⟩ | ⟨ha, hne⟩
+    · have hew : e = w := by cases ha; rfl
+      subst hew
+      have := ih { p with now := p.now + e } e' o hu ht hh hk (by simp; omega)
+      unfold runS
+      split
+      · rename_i hn'; rw [ht] at hn'; cases hn'
+      · rename_i D' hD'
+        rw [ht] at hD'; cases hD'
+        rw [if_neg (by omega), this]; simp [Nat.add_assoc]
+    · cases ha; exact absurd rfl hne
+  | call t name body k ihb ihk =>
+    intro p d o hu ht hh hn hlt
+    simp [Prog.unarmed] at hu
+    obtain ⟨⟨ht0, hub⟩, huk⟩ := hu
+    have hw : runS cfg (.call t name body k) p = seqS (runS cfg body p) (runS cfg k) := by
+      simp [runS, wrapS, ht0]
+    rw [hw]
+    rcases natSeq_some hn with ⟨e, e', ha, hk, rfl⟩ | ⟨ha, hne⟩
+    · rw [ihb p e .ret hub ht hh ha (by omega)]
+      simp only [seqS]
+      rw [ihk { p with now := p.now + e } e' o huk ht hh hk (by simp; omega)]
+      simp [Nat.add_assoc]
+    · rw [ihb p d o hub ht hh ha hlt]
+      cases o <;> simp_all [seqS]
+  | spawn body k _ _ => intro p d o hu; simp [Prog.unarmed] at hu
+
+/-- signal mechanism, the program does not finish before the armed deadline: ScrapliTimeout exactly at the
+    deadline, transport closed unless NO_TERMINATE -/
+theorem runS_natural_fire (cfg : Cfg) (m : String) (D : Nat) : ∀ (prog : Prog) (p : Proc),
+    prog.unarmed = true → p.timer = some D → p.handler = .scrapli m → p.now < D →
+    (∀ d o, prog.natural = (some d, o) → D ≤ p.now + d) →
+    runS cfg prog p = some ({ p with now := D, timer := none, closed := if cfg.noTerminate then p.closed else true },
+      .timeout m) := by
+  intro prog
+  induction prog with
+  | ret => intro p _ _ _ hn hl; have := hl 0 .ret rfl; omega
+  | raise => intro p _ _ _ hn hl; have := hl 0 .error rfl; omega
+  | hang =>
+    intro p _ ht hh hn _
+    simp only [runS, ht, fireS_scrapli cfg p D m hh]
+    simp; omega
+  | work w k ih =>
+    intro p hu ht hh hn hl
+    simp [Prog.unarmed] at hu
+    unfold runS
+    split
+    · rename_i hn'; rw [ht] at hn'; cases hn'
+    · rename_i D' hD'
+      rw [ht] at hD'; cases hD'
+      by_cases hD : D ≤ p.now + w
+      · rw [if_pos hD, fireS_scrapli cfg p D m hh]; simp; omega
+      · rw [if_neg hD]
+        have := ih { p with now := p.now + w } hu ht hh (by simp; omega) (by
+          intro d o hk
+          have := hl (w + d) o (by simp [Prog.natural, natSeq, hk])
+          simp; omega)
+        rw [this]
+  | call t name body k ihb ihk =>
+    intro p hu ht hh hn hl
+    simp [Prog.unarmed] at hu
+    obtain ⟨⟨ht0, hub⟩, huk⟩ := hu
+    have hw : runS cfg (.call t name body k) p = seqS (runS cfg body p) (runS cfg k) := by
+      simp [runS, wrapS, ht0]
+    rw [hw]
+    have hl' : ∀ d o, natSeq body.natural k.natural = (some d, o) → D - p.now ≤ d := by
+      intro d o hx; have := hl d o hx; omega
+    rcases natSeq_late hl' with hb | ⟨e, ha, hlt, hk⟩
+    · rw [ihb p hub ht hh hn (by intro d o hx; have := hb d o hx; omega)]
+      simp [seqS]
+    · rw [runS_natural_own cfg m D body p e .ret hub ht hh ha (by omega)]
+      simp only [seqS]
+      rw [ihk { p with now := p.now + e } huk ht hh (by simp; omega) (by
+        intro d o hx; have := hk d o hx; simp; omega)]
+  | spawn body k _ _ => intro p hu; simp [Prog.unarmed] at hu
+
+/-- asyncio, the coroutine finishes before any enclosing cancellation: its own result at its own time -/
+theorem runA_natural_own (cfg : Cfg) : ∀ (prog : Prog) (s : Nat) (ca : Option Nat) (c : Bool) (d : Nat) (o : Out),
+    prog.unarmed = true → prog.natural = (some d, o) → (∀ C, ca = some C → s + d < C) →
+    runA cfg prog s ca c = { fin := some (s + d), out := o, closed := c } := by
+  intro prog
+  induction prog with
+  | ret => intro s ca c d o _ hn _; simp [Prog.natural] at hn; simp [runA, ← hn.1, ← hn.2]
+  | raise => intro s ca c d o _ hn _; simp [Prog.natural] at hn; simp [runA, ← hn.1, ← hn.2]
+  | hang => intro s ca c d o _ hn _; simp [Prog.natural] at hn
+  | work w k ih =>
+    intro s ca c d o hu hn hlt
+    simp [Prog.unarmed] at hu
+    rcases natSeq_some hn with ⟨e, e', ha, hk, rfl⟩ | ⟨ha, hne⟩
+    · have hew : e = w := by cases ha; rfl
+      subst hew
+      have := ih (s + e) ca c e' o hu hk (by intro C hC; have := hlt C hC; omega)
+      unfold runA
+      cases ca with
+      | none => simp only; rw [this]; simp [Nat.add_assoc]
+      | some C =>
+        have := hlt C rfl
+        simp only
+        rw [if_neg (by omega)]
+        rw [ih (s + e) (some C) c e' o hu hk (by intro C' hC'; cases hC'; omega)]; simp [Nat.add_assoc]
+    · cases ha; exact absurd rfl hne
+  | call t name body k ihb ihk =>
+    intro s ca c d o hu hn hlt
+    simp [Prog.unarmed] at hu
+    obtain ⟨⟨ht0, hub⟩, huk⟩ := hu
+    have hw : runA cfg (.call t name body k) s ca c
+        = seqA (runA cfg body s ca c) (fun e c' => runA cfg k e ca c') := by
+      simp [runA, waitForA, ht0]
+    rw [hw]
+    rcases natSeq_some hn with ⟨e, e', ha, hk, rfl⟩ | ⟨ha, hne⟩
+    · rw [ihb s ca c e .ret hub ha (by intro C hC; have := hlt C hC; omega)]
+      simp only [seqA]
+      rw [ihk (s + e) ca c e' o huk hk (by intro C hC; have := hlt C hC; omega)]
+      simp [Nat.add_assoc]
+    · rw [ihb s ca c d o hub ha hlt]
+      cases o <;> simp_all [seqA]
+  | spawn body k _ _ => intro s ca c d o hu; simp [Prog.unarmed] at hu
+
+/-- asyncio, the coroutine does not finish before the cancellation at `C`: cancelled exactly at `C` -/
+theorem runA_natural_cancel (cfg : Cfg) : ∀ (prog : Prog) (s C : Nat) (c : Bool),
+    prog.unarmed = true → s < C → (∀ d o, prog.natural = (some d, o) → C ≤ s + d) →
+    runA cfg prog s (some C) c = { fin := some C, out := .cancelled, closed := c } := by
+  intro prog
+  induction prog with
+  | ret => intro s C c _ hs hl; have := hl 0 .ret rfl; omega
+  | raise => intro s C c _ hs hl; have := hl 0 .error rfl; omega
+  | hang => intro s C c _ hs _; simp [runA]; omega
+  | work w k ih =>
+    intro s C c hu hs hl
+    simp [Prog.unarmed] at hu
+    unfold runA
+    simp only
+    by_cases hC : C ≤ s + w
+    · rw [if_pos hC]; simp; omega
+    · rw [if_neg hC]
+      exact ih (s + w) C c hu (by omega) (by
+        intro d o hk
+        have := hl (w + d) o (by simp [Prog.natural, natSeq, hk])
+        omega)
+  | call t name body k ihb ihk =>
+    intro s C c hu hs hl
+    simp [Prog.unarmed] at hu
+    obtain ⟨⟨ht0, hub⟩, huk⟩ := hu
+    have hw : runA cfg (.call t name body k) s (some C) c
+        = seqA (runA cfg body s (some C) c) (fun e c' => runA cfg k e (some C) c') := by
+      simp [runA, waitForA, ht0]
+    rw [hw]
+    have hl' : ∀ d o, natSeq body.natural k.natural = (some d, o) → C - s ≤ d := by
+      intro d o hx; have := hl d o hx; omega
+    rcases natSeq_late hl' with hb | ⟨e, ha, hlt, hk⟩
+    · rw [ihb s C c hub hs (by intro d o hx; have := hb d o hx; omega)]
+      simp [seqA]
+    · rw [runA_natural_own cfg body s (some C) c e .ret hub ha (by intro C' hC'; cases hC'; omega)]
+      simp only [seqA]
+      rw [ihk (s + e) C c huk (by omega) (by intro d o hx; have := hk d o hx; omega)]
+      simp
+  | spawn body k _ _ => intro s C c hu; simp [Prog.unarmed] at hu
+
+/-- thread mechanism, nobody closes the transport: the worker does exactly what the program does by itself -/
+theorem runT_natural (cfg : Cfg) : ∀ (prog : Prog) (s : Nat), prog.unarmed = true →
+    runT cfg prog s none = { fin := prog.natural.1.map (s + ·), out := prog.natural.2 } := by
+  intro prog
+  induction prog with
+  | ret => intro s _; simp [runT, Prog.natural]
+  | raise => intro s _; simp [runT, Prog.natural]
+  | hang => intro s _; simp [runT, readT, Prog.natural]
+  | work w k ih =>
+    intro s hu
+    simp [Prog.unarmed] at hu
+    have := ih (s + w) hu
+    unfold runT readT
+    simp only [Option.map_some]
+    rw [this]
+    rcases hk : k.natural with ⟨kd, ko⟩
+    cases kd <;> simp [Prog.natural, natSeq, hk, Nat.add_assoc]
+  | call t name body k ihb ihk =>
+    intro s hu
+    simp [Prog.unarmed] at hu
+    obtain ⟨⟨ht0, hub⟩, huk⟩ := hu
+    have hw : runT cfg (.call t name body k) s none = seqT (runT cfg body s none) (runT cfg k) none := by
+      simp [runT, poolT, ht0]
+    rw [hw, ihb s hub]
+    rcases hb : body.natural with ⟨bd, bo⟩
+    rcases hk : k.natural with ⟨kd, ko⟩
+    cases bd with
+    | none => simp [seqT, Prog.natural, natSeq, hb]
+    | some e =>
+      cases bo with
+      | ret =>
+        simp only [seqT, Option.map_some]
+        have hoo : omin none none = none := rfl
+        rw [hoo, ihk (s + e) huk]
+        cases kd <;> simp [Prog.natural, natSeq, hb, hk, Nat.add_assoc]
+      | timeout m => simp [seqT, Prog.natural, natSeq, hb]
+      | error => simp [seqT, Prog.natural, natSeq, hb]
+      | cancelled => simp [seqT, Prog.natural, natSeq, hb]
+  | spawn body k _ _ => intro s hu; simp [Prog.unarmed] at hu
+
+theorem natSeq_out (a k : Option Nat × Out) (ha : a.2 = .ret ∨ a.2 = .error) (hk : k.2 = .ret ∨ k.2 = .error) :
+    (natSeq a k).2 = .ret ∨ (natSeq a k).2 = .error := by
+  obtain ⟨ad, ao⟩ := a
+  obtain ⟨kd, ko⟩ := k
+  cases ad <;> cases kd <;> cases ao <;> simp_all [natSeq]
+
+theorem natural_out : ∀ prog : Prog, prog.natural.2 = .ret ∨ prog.natural.2 = .error := by
+  intro prog
+  induction prog with
+  | ret => exact Or.inl rfl
+  | raise => exact Or.inr rfl
+  | hang => exact Or.inr rfl
+  | work w k ih => exact natSeq_out _ _ (Or.inl rfl) ih
+  | call t name body k ihb ihk => exact natSeq_out _ _ ihb ihk
+  | spawn body k ihb ihk => exact natSeq_out _ _ ihb ihk
 
 end Scrapli.Timeout
